@@ -253,35 +253,29 @@ class LiteralProvider(LoaderProvider, DumperProvider):
         bytes_loader: Loader[bytes],
     ) -> Loader:
         cases = tuple(case for _, case in cases)
+        allowed_values = self._get_allowed_values_collection(cases)
+
         if strict_coercion and any(isinstance(arg, bool) or _is_exact_zero_or_one(arg) for arg in cases):
             allowed_values_with_types = self._get_allowed_values_collection(
                 [(type(el), el) for el in cases],
             )
 
             # since True == 1 and False == 0
-            def literal_loader_sc(data):
+            def literal_loader(data):
                 try:
                     if (type(data), data) in allowed_values_with_types:
                         return data
                 except TypeError:  # unhashable data can not be looked up in a set
                     pass
                 raise BadVariantLoadError(allowed_values_repr, data)
-
-            return self._get_literal_loader_with_enum(
-                literal_loader_sc,
-                enum_loaders,
-                allowed_values_with_types,
-            )
-
-        allowed_values = self._get_allowed_values_collection(cases)
-
-        def literal_loader(data):
-            try:
-                if data in allowed_values:
-                    return data
-            except TypeError:  # unhashable data can not be looked up in a set
-                pass
-            raise BadVariantLoadError(allowed_values_repr, data)
+        else:
+            def literal_loader(data):
+                try:
+                    if data in allowed_values:
+                        return data
+                except TypeError:  # unhashable data can not be looked up in a set
+                    pass
+                raise BadVariantLoadError(allowed_values_repr, data)
 
         if bytes_cases and not enum_loaders:
             return self._get_literal_loader_with_bytes(literal_loader, allowed_values, bytes_loader)
